@@ -132,6 +132,11 @@ def warmup():
     return found
 
 
+# registrations that exist for the whole run (made by run_job, undone at its end): the table form of the Python-visible registry
+# must keep listing them under every mode
+CHURN_LIVE = {'a': (U.CB,), 'b': (U.CC,)}
+
+
 class NotPristine(Exception):
     pass
 
@@ -323,6 +328,25 @@ def observe(model, viol, site, probes, extra_tree):
                 viol('pairing', site, 'tree_transpose_map under mode %s in namespace %r gives %r' % (want_eff, ns, tm))
         except Exception as e:  # noqa: BLE001
             viol('pairing', site, 'tree_transpose(_map) raised %s: %s (namespace %r, mode %s)' % (type(e).__name__, e, ns, want_eff))
+        # tree_transpose takes the namespace to re-flatten in from whichever of its treespecs recorded one: the inner treespec made
+        # in this namespace (under its mode), the outer one made without any namespace -- and the mirrored case
+        try:
+            plain_outer = optree.tree_structure([0, 0])
+            for mk in (dict, lambda it: defaultdict(int, it)):
+                inner_ns = optree.tree_structure(mk([('b', 0), ('a', 0)]), namespace=ns)
+                got = optree.tree_transpose(plain_outer, inner_ns, [mk([('b', 1), ('a', 2)]), mk([('b', 3), ('a', 4)])])
+                if dict(got) != {'b': [1, 3], 'a': [2, 4]}:
+                    viol('pairing', site, 'tree_transpose(outer without namespace, inner made in namespace %r under mode %s) gives %r' % (ns, want_eff, got))
+                got2 = optree.tree_transpose(inner_ns, plain_outer, mk([('b', [1, 3]), ('a', [2, 4])]))
+                if [dict(x) for x in got2] != [{'b': 1, 'a': 2}, {'b': 3, 'a': 4}]:
+                    viol('pairing', site, 'tree_transpose(outer made in namespace %r under mode %s, inner without namespace) gives %r' % (ns, want_eff, got2))
+        except Exception as e:  # noqa: BLE001
+            viol('pairing', site, 'tree_transpose with one namespaced treespec raised %s: %s (namespace %r, mode %s)' % (type(e).__name__, e, ns, want_eff))
+        # the table form of the Python-visible registry keeps listing the registrations of the namespace under any mode
+        tbl = optree.register_pytree_node.get(namespace=ns)
+        for c_reg in list(CHURN_LIVE.get(ns, ())):
+            if c_reg not in tbl or tbl[c_reg].namespace != ns:
+                viol('registry-lookup', site, 'register_pytree_node.get(namespace=%r) omits %s, which is registered in that namespace (mode %s)' % (ns, c_reg.__name__, want_eff))
         # nested dicts below the root follow the mode too
         nested = [{'b': 1, 'a': 2}, ({'d': 3, 'c': 4},), U.NT1({'f': 5, 'e': 6}, None)]
         nl = optree.tree_leaves(nested, namespace=ns)
@@ -589,8 +613,16 @@ def run_job(job, io):
     # managers and decorated functions made NOW, while every flag is off; used later inside other blocks
     prebuilt = {(m, key_ns(n)): [optree.dict_insertion_ordered(m, namespace=n) for _ in range(3)] for m in (True, False) for n in NS_CHOICES}
     decorated = {(m, key_ns(n)): optree.dict_insertion_ordered(m, namespace=n)(_call_body) for m in (True, False) for n in NS_CHOICES}
+    live_funcs = []
+    for lns, classes in CHURN_LIVE.items():
+        for c_ in classes:
+            f_live = U.Funcs(c_, 8000 + len(live_funcs), 0)
+            optree.register_pytree_node(c_, f_live.flatten, f_live.unflatten, namespace=lns)
+            live_funcs.append((c_, lns))
     initial = observe(model, viol, 'initial', probes, extra_tree)
     if violations:
+        for c_, lns in live_funcs:
+            optree.unregister_pytree_node(c_, namespace=lns)
         raise NotPristine('mode set not pristine at run start: %r' % violations)
     if sweep is not None:
         # parse the parenthesis shape into a forest with symbols assigned in pre-order
@@ -640,6 +672,11 @@ def run_job(job, io):
             want = full[1:]
         if got != want:
             viol('iterator-mode', 'iterator', 'an iterator created under mode %s in namespace %r yields %r after the block exited; expected %r' % (eff, kns, got, want))
+    for c_, lns in live_funcs:
+        try:
+            optree.unregister_pytree_node(c_, namespace=lns)
+        except Exception as e:  # noqa: BLE001
+            viol('registry-lookup', 'final', 'unregistering the run-long registration of %s in %r raised %s: %s' % (c_.__name__, lns, type(e).__name__, e))
     dig = hashlib.sha256(repr((oplog, [v['cls'] + v['site'] for v in violations])).encode()).hexdigest()
     out = {'digest': dig, 'violations': violations, 'keys': sorted(keys), 'steps': steps[0], 'probes': dict(probes),
            'faults_cfg': {'raise': 1}, 'faults_fired': {'raise': probes['raise-exit'] + probes['raise-in-callback']},
